@@ -60,3 +60,31 @@ let split_ws (s : string) : string list =
 (* iterate over stdin lines *)
 let iter_lines (f : string -> unit) : unit =
   try while true do f (input_line stdin) done with End_of_file -> ()
+
+(* byte slices in the protocol: segments "hh*count" / "=hex" joined by ',' *)
+let bytes_of_rle (s : string) : z list =
+  if s = "-" then [] else
+  List.concat_map (fun seg ->
+    if String.length seg > 0 && seg.[0] = '=' then
+      bytes_of_hex (String.sub seg 1 (String.length seg - 1))
+    else match String.split_on_char '*' seg with
+      | [h; c] -> let v = z_of_int (int_of_string ("0x" ^ h)) in List.init (int_of_string c) (fun _ -> v)
+      | _ -> failwith ("bad rle segment " ^ seg)) (String.split_on_char ',' s)
+
+let rle_of_bytes (b : z list) : string =
+  if b = [] then "-" else begin
+    let a = Array.of_list (List.map int_of_z b) in
+    let n = Array.length a in
+    let segs = ref [] and lit = Buffer.create 16 in
+    let flush () = if Buffer.length lit > 0 then (segs := ("=" ^ Buffer.contents lit) :: !segs; Buffer.clear lit) in
+    let i = ref 0 in
+    while !i < n do
+      let j = ref !i in
+      while !j < n && a.(!j) = a.(!i) do incr j done;
+      if !j - !i >= 4 then (flush (); segs := Printf.sprintf "%02x*%d" a.(!i) (!j - !i) :: !segs)
+      else for _ = 1 to !j - !i do Buffer.add_string lit (Printf.sprintf "%02x" a.(!i)) done;
+      i := !j
+    done;
+    flush ();
+    String.concat "," (List.rev !segs)
+  end
